@@ -18,3 +18,5 @@ open GV.FFT
 #print axioms C10_readInto_receiver_irrelevant
 #print axioms C10_readInto_roundtrip
 #print axioms C10_readIntoAnswer_receiver_irrelevant
+#print axioms C10_stream_roundtrip
+#print axioms C10_generatorOf_defined
